@@ -490,6 +490,54 @@ def run_instance(I, seed):
                 o["inv_ok"] = la.close(la.mul(A, Ainv), la.eye(n), TOL)
             o["outside_ok"] = a.outside_ok()
             out.append(o)
+        # generalized symmetric-definite eigenproblems with the planted matrix as B (sygv / hegv): B must be positive definite
+        gv = lapack.hegv if tc == "z" else lapack.sygv
+        S = [[0j] * n for _ in range(n)]
+        for i in range(n):
+            for j in range(i, n):
+                v = complex(rnd.randint(-3, 3), rnd.randint(-3, 3) if tc == "z" else 0)
+                if i == j:
+                    S[i][i] = complex(v.real, 0)
+                else:
+                    S[i][j], S[j][i] = v, v.conjugate()
+        wref = {}
+        for it in (1, 2, 3):
+            for jobz in ("V", "N"):
+                ul = rnd.choice(["L", "U"])
+                a = Buf(rnd, tri_part(S, n, ul, 55.5), tc, natural=nat)
+                b = Buf(rnd, tri_part(A, n, ul, 55.5), tc, natural=nat)
+                W = matrix(CAN, (n + 1, 1), "d")
+                o = obs("chol-factor")
+                def go():
+                    gv(a.M, b.M, W, itype=it, jobz=jobz, uplo=ul, **dims(a), **a.kw("A"), **b.kw("B"))
+                    w = [W[i] for i in range(n)]
+                    o["order_ok"] = all(w[i] <= w[i + 1] + 1e-9 * (1 + abs(w[i])) for i in range(n - 1)) and W[n] == CAN
+                    if it in wref:
+                        o["same_as_driver"] = all(abs(x - y) <= 1e-7 * (1 + abs(x)) for x, y in zip(w, wref[it]))
+                    wref.setdefault(it, w)
+                    if jobz == "V":
+                        Z = a.get()
+                        D = [[(w[i] if i == j else 0.0) for j in range(n)] for i in range(n)]
+                        ZD = la.mul(Z, D)
+                        if it == 1:
+                            o["recon_ok"] = la.close(la.mul(S, Z), la.mul(A, ZD), 1e-7)
+                        elif it == 2:
+                            o["recon_ok"] = la.close(la.mul(S, la.mul(A, Z)), ZD, 1e-7)
+                        else:
+                            o["recon_ok"] = la.close(la.mul(A, la.mul(S, Z)), ZD, 1e-7)
+                        if it in (1, 2):
+                            o["orth_ok"] = la.close(la.mul(la.ct(Z), la.mul(A, Z)), la.eye(n), 1e-7)
+                        else:
+                            o["orth_ok"] = la.close(la.mul(Z, la.ct(Z)), A, 1e-7)
+                    # B is replaced by its Cholesky factor (in the uplo triangle; the other triangle is not referenced)
+                    g = b.get()
+                    T = [[(g[i][j] if (i >= j if ul == "L" else i <= j) else 0j) for j in range(n)] for i in range(n)]
+                    o["recon_ok"] = o["recon_ok"] and la.close(la.mul(T, la.ct(T)) if ul == "L" else la.mul(la.ct(T), T), A, TOL)
+                    o["outside_ok"] = all(g[i][j] == 55.5 for i in range(n) for j in range(n) if (i < j if ul == "L" else i > j))
+                attempt(o, go)
+                o["outside_ok"] = o["outside_ok"] and a.outside_ok() and b.outside_ok()
+                o["name"] = "%s:%d:%s" % ("hegv" if tc == "z" else "sygv", it, jobz)
+                out.append(o)
     elif fam == "pb":
         kd = I["kl"]
         for ul in ("L", "U"):
@@ -876,6 +924,62 @@ def run_free(seed):
     attempt(o, go)
     o["outside_ok"] = o["outside_ok"] and a.outside_ok()
     out.append(o)
+    # --- ordered Schur factorisation (select) and generalized Schur factorisation
+    def schur_form_ok(T):
+        if tc == "z":
+            return all(abs(T[i][j]) <= 1e-10 for i in range(n) for j in range(i))
+        sub = [abs(T[i + 1][i]) > 1e-10 for i in range(n - 1)]
+        return all(abs(T[i][j]) <= 1e-10 for i in range(n) for j in range(i - 1)) and not any(sub[i] and sub[i + 1] for i in range(n - 2))
+    a = mat(A, True)
+    wv = matrix(complex(CAN, CAN), (n + 1, 1), "z")
+    Vb = mat([[0j] * n for _ in range(n)], True)
+    o = obs("schur")
+    def go():
+        sd = lapack.gees(a.M, wv, Vb.M, select=lambda z: z.real > 0.05)
+        w = [wv[i] for i in range(n)]
+        T, Zm = a.get(), Vb.get()
+        o["recon_ok"] = la.close(la.mul(la.mul(Zm, T), la.ct(Zm)), A, 1e-8)
+        o["orth_ok"] = orth(Zm)
+        sel = [z.real > 0.05 for z in w]
+        # the selected eigenvalues come first and are counted (values within rounding of the threshold are not judged)
+        if all(abs(z.real - 0.05) > 1e-6 for z in w):
+            o["order_ok"] = schur_form_ok(T) and sd == sum(sel) and sel == sorted(sel, reverse=True) and wv[n] == complex(CAN, CAN)
+    attempt(o, go)
+    if o["raised"] == "ArithmeticError":
+        o = None                  # reordering can fail for ill-conditioned clusters (LAPACK info = n+1, n+2): documented as ArithmeticError
+    if o is not None:
+        o["name"] = "gees:select"
+        out.append(o)
+    B2 = [[rv() for _ in range(n)] for _ in range(n)]
+    for use_sel in (False, True):
+        a, b = mat(A, nat), mat(B2, nat)
+        al = matrix(complex(CAN, CAN), (n + 1, 1), "z")
+        be = matrix(CAN, (n + 1, 1), "d")
+        Vl, Vr = mat([[0j] * n for _ in range(n)], True), mat([[0j] * n for _ in range(n)], True)
+        o = obs("schur")
+        fsel = (lambda u, v: u.real > 0.05 * abs(v)) if use_sel else None
+        def go():
+            sd = lapack.gges(a.M, b.M, al, be, Vl.M, Vr.M, **({"select": fsel} if use_sel else {}), **({} if a.natural else {"n": n}), **a.kw("A"), **b.kw("B"))
+            Sm, Tm, L, R = a.get(), b.get(), Vl.get(), Vr.get()
+            o["recon_ok"] = la.close(la.mul(la.mul(L, Sm), la.ct(R)), A, 1e-8) and la.close(la.mul(la.mul(L, Tm), la.ct(R)), B2, 1e-8)
+            o["orth_ok"] = orth(L) and orth(R)
+            o["order_ok"] = schur_form_ok(Sm) and all(abs(Tm[i][j]) <= 1e-10 for i in range(n) for j in range(i)) \
+                and al[n] == complex(CAN, CAN) and be[n] == CAN
+            if tc == "z":
+                # a[i] / b[i] are the generalized eigenvalues S[i][i] / T[i][i]
+                o["order_ok"] = o["order_ok"] and all(abs(al[i] * Tm[i][i] - be[i] * Sm[i][i]) <= 1e-8 * (1 + abs(al[i] * Tm[i][i])) for i in range(n))
+            if use_sel:
+                sel = [fsel(al[i], be[i]) for i in range(n)]
+                if all(abs(al[i].real - 0.05 * abs(be[i])) > 1e-6 for i in range(n)):
+                    o["order_ok"] = o["order_ok"] and sd == sum(sel) and sel == sorted(sel, reverse=True)
+            else:
+                o["order_ok"] = o["order_ok"] and sd == 0
+        attempt(o, go)
+        if o["raised"] == "ArithmeticError" and use_sel:
+            continue
+        o["outside_ok"] = a.outside_ok() and b.outside_ok()
+        o["name"] = "gges:" + ("select" if use_sel else "plain")
+        out.append(o)
     return out
 
 
